@@ -134,7 +134,7 @@ impl Drop for LazyRaw {
 
 impl Debug for LazyRaw {
     fn fmt(&self, f: &mut fmt::Formatter<'_>) -> fmt::Result {
-        let ptr = self.parsed.load(Ordering::Relaxed);
+        let ptr = self.parsed.load(Ordering::Acquire);
         let s = if ptr.is_null() {
             "<nill>".to_string()
         } else {
@@ -246,7 +246,7 @@ impl LazyRaw {
     }
 
     fn clone_lazyraw(&self) -> std::result::Result<LazyRaw, Parsed> {
-        let parsed = self.parsed.load(Ordering::Relaxed);
+        let parsed = self.parsed.load(Ordering::Acquire);
         if parsed.is_null() {
             Ok(LazyRaw {
                 raw: self.raw.clone(),
